@@ -84,6 +84,29 @@ Theorem C04_result_sound : forall cols (q : query) (names : list (option (list Z
 Proof. exact exec_nonagg_sound. Qed.
 Print Assumptions C04_result_sound.
 
+(* ... and for aggregate queries: grouped targets are typed without aggregates (they are evaluated on a row of
+   the group), the aggregate nodes have the dtypes [aggs] (handle = position), the other targets are typed with
+   them and evaluated on the finalised store. Every cell of the final result (after HAVING, ORDER BY, projection,
+   DISTINCT, LIMIT) inhabits the description's datatype at its position or is NULL, and none is an exception
+   (in particular the executor never runs out of key cells). Uses C02's partition/fold theorem exec_rows_agg. *)
+Theorem C04_result_sound_agg : forall cols aggs (q : query) (g : list nat) (names : list (option (list Z))) d table,
+  q_group q = Some g ->
+  length names = length (q_targets q) ->
+  q_vis q = vis_from 0 (combine (q_targets q) names) ->
+  description cols aggs (combine (q_targets q) names) = Some d ->
+  Forall2 (fun a t => agg_type cols a = Some t) (q_aggs q) aggs ->
+  (forall j e, nth_error (q_targets q) j = Some e -> In j g -> exists t, type_of cols [] e = Some t) ->
+  Forall (conforms cols) table ->
+  Forall (fun out => Forall2 (fun v nt => has_type v (snd nt) = true /\ forall k, v <> VErr k) out d)
+         (exec q table).
+Proof. exact exec_agg_sound. Qed.
+Print Assumptions C04_result_sound_agg.
+
+(* an expression typed without aggregate dtypes keeps its dtype when they are supplied (it has no aggregate node) *)
+Theorem C04_type_of_weaken : forall cols aggs e t, type_of cols [] e = Some t -> type_of cols aggs e = Some t.
+Proof. exact type_of_weaken. Qed.
+Print Assumptions C04_type_of_weaken.
+
 (* One obligation per overload: the typing tables of all modelled constructors, computed from the
    registry snapshot, are exactly these (a changed declaration breaks the equality) ... *)
 Theorem C04_binop_overloads : binop_table =
@@ -170,3 +193,16 @@ Example C04_example_sum_bool :
   agg_type [TBool] {| afun := ASum (VInt 0); aarg := ECol 0 |} = Some TInt
   /\ fold_agg {| afun := ASum (VInt 0); aarg := ECol 0 |} [[VBool true]; [VNull]; [VBool true]] = VInt 2.
 Proof. split; reflexivity. Qed.
+
+(* SELECT a, sum(b) + 1 AS s FROM t GROUP BY a: the hypotheses of C04_result_sound_agg hold and the query runs *)
+Definition ex_q : query :=
+  {| q_where := None; q_targets := [ECol 0; EBinary BAdd (EAgg 0) (EConst (VInt 1))]; q_group := Some [0%nat];
+     q_aggs := [{| afun := ASum (VInt 0); aarg := ECol 1 |}]; q_having := None; q_order := Some [(1%nat, true)];
+     q_vis := [0%nat; 1%nat]; q_distinct := false; q_limit := None |}.
+Example C04_example_agg :
+  description [TStr; TBool] [TInt] (combine (q_targets ex_q) [Some [97]; Some [115]]) = Some [([97], TStr); ([115], TInt)]
+  /\ Forall2 (fun a t => agg_type [TStr; TBool] a = Some t) (q_aggs ex_q) [TInt]
+  /\ q_vis ex_q = vis_from 0 (combine (q_targets ex_q) [Some [97]; Some [115]])
+  /\ exec ex_q [[VStr [120]; VBool true]; [VStr [121]; VNull]; [VStr [120]; VBool true]]
+     = [[VStr [120]; VInt 3]; [VStr [121]; VInt 1]].
+Proof. repeat split. repeat constructor. Qed.
